@@ -6,7 +6,9 @@ ROOT = os.path.dirname(os.path.dirname(os.path.abspath(__file__)))
 
 ENGINES = [
     {"name": "vl-model", "path": "harness/vl-model",
-     "serves_properties": [], "kind_free_text": "shared library: run context/evidence, proptest plumbing, request alphabet + reference model + reply-stream checker, T-service (bindings generated at build time by /repo's generator), socket peers, IDL model/generators/reference recogniser"},
+     "serves_properties": [], "kind_free_text": "shared library: run context/evidence, proptest plumbing, request alphabet + reference model + reply-stream checker, T-service constants, socket peers, IDL model/generators/reference recogniser, shared oracles (also used by the libFuzzer targets), child-process isolation, fuzz campaign runner"},
+    {"name": "vl-tsvc", "path": "harness/vl-tsvc",
+     "serves_properties": [], "kind_free_text": "the harness' test service (bindings generated at build time by /repo's generator) and the helper binary vl-svc: listen / socket-activated / stdio / resolver service, spawning-constructor clients, Listener::new activation matrix probe"},
     {"name": "vl-core", "path": "harness/vl-core",
      "serves_properties": ["C01", "C02", "C03", "C04", "C05", "C06", "C07", "C13", "C14", "C15", "C16", "C17"],
      "kind_free_text": "in-process property-based / bounded-exhaustive checks against the varlink crate (handle(), listen(), client MethodCall, thread pool via cfg-guarded probes)"},
